@@ -3,6 +3,8 @@ package engine
 import (
 	"errors"
 	"fmt"
+	"os"
+	"runtime/debug"
 	"strings"
 
 	"github.com/cockroachdb/pebble/verifsim/simfs"
@@ -126,7 +128,9 @@ func (h *dbHarness) harvestFaultStats(d *simfs.Disk) {
 // errorsTolerated reports whether an operation may fail right now.
 func (h *dbHarness) errorsTolerated() bool {
 	if h.faultProfile() {
-		return h.faultsArmed || (h.inc != nil && h.inc.FaultFired)
+		// Armed rules alone excuse nothing: an operation may fail only once an
+		// injected error has actually been returned to this incarnation.
+		return h.inc != nil && h.inc.FaultFired
 	}
 	return (h.inc != nil && h.inc.FaultFired) || len(h.plan.Faults) > 0
 }
@@ -135,6 +139,15 @@ func (h *dbHarness) errorsTolerated() bool {
 // outcomes (a failed WAL write, for example). A panic that carries an injected
 // error, in an incarnation in which a fault fired, is a process crash.
 func (h *dbHarness) onPanic(t *simrt.Task, r any) bool {
+	if t != nil && t.Inc != nil && t.Inc == h.rotInc {
+		// reading a damaged file made Pebble panic: fail-stop, not silent
+		h.count("rot.panic @ "+panicSite(string(debug.Stack())), 1)
+		if !t.Inc.Dead {
+			simrt.Kill(t.Inc)
+		}
+		simrt.Wake(rotWaitKey)
+		return true
+	}
 	if t == nil || t.Inc == nil || t.Inc != h.inc || !t.Inc.FaultFired {
 		return false
 	}
@@ -149,11 +162,12 @@ func (h *dbHarness) onPanic(t *simrt.Task, r any) bool {
 		if !h.faultProfile() {
 			return false
 		}
-		// Any other panic after an injected fault (an assertion tripping over
-		// a resource leaked on an error path, for example) is also fail-stop
-		// behaviour: C43 is about wrong results and inconsistent state, not
-		// about availability. It is counted by kind (see DESIGN.md,
-		// observations) and recovery is held to the usual oracle.
+		// Any other panic after an injected fault: "every operation either
+		// returns an error or correct results" - a panic is neither. One family
+		// is a recorded finding (KNOWN_FINDINGS.jsonl): Open fails after its
+		// recovery flush has started background jobs, releases the file cache
+		// under them and either side trips an assertion or a nil map. Every
+		// other site is reported.
 		msg := fmt.Sprint(r)
 		if i := strings.IndexByte(msg, '\n'); i >= 0 {
 			msg = msg[:i]
@@ -161,7 +175,18 @@ func (h *dbHarness) onPanic(t *simrt.Task, r any) bool {
 		if len(msg) > 60 {
 			msg = msg[:60]
 		}
-		h.count("panic_after_fault:"+msg, 1)
+		stack := string(debug.Stack())
+		site := panicSite(stack)
+		if os.Getenv("VERIF_DEBUG") != "" {
+			fmt.Fprintf(os.Stderr, "panic after fault: %v\n%s\n", r, stack)
+		}
+		h.count("panic_after_fault:"+msg+" @ "+site, 1)
+		if h.opening || h.openFailed {
+			h.addKnown("C43:background-job-outlives-failed-open")
+		} else {
+			simrt.FailNoPark("oracle:panic-after-fault", fmt.Sprintf("after an injected I/O error an operation neither returned an error nor a result: panic %v in %s\n%s", r, site, stack))
+			return true
+		}
 	}
 	h.count("panic.crash", 1)
 	if !t.Inc.Dead {
@@ -217,3 +242,26 @@ func (h *dbHarness) resolveFailed(gi *groupInfo, what string, err error) {
 }
 
 var _ = errors.Is
+
+// panicSite extracts the innermost Pebble function below the panic call from a
+// stack dump taken inside the recovering deferred function.
+func panicSite(stack string) string {
+	lines := strings.Split(stack, "\n")
+	seenPanic := false
+	for _, l := range lines {
+		if strings.HasPrefix(l, "panic(") {
+			seenPanic = true
+			continue
+		}
+		if !seenPanic || strings.HasPrefix(l, "\t") {
+			continue
+		}
+		if strings.HasPrefix(l, "github.com/cockroachdb/pebble") && !strings.Contains(l, "/verifsim/") {
+			if i := strings.LastIndexByte(l, '('); i > 0 {
+				l = l[:i]
+			}
+			return strings.TrimPrefix(l, "github.com/cockroachdb/pebble")
+		}
+	}
+	return "?"
+}
